@@ -25,7 +25,7 @@ def sh(cmd, cwd, timeout=3600):
     return p.returncode, p.stdout
 
 
-def confirm(wt, sid, prop):
+def confirm(wt, sid, prop, demo_flags=""):
     patch = os.path.join(wt, "mutant.diff")
     demos = glob.glob(os.path.join(wt, "derive/tests/zz_demo_*.rs")) + glob.glob(os.path.join(wt, "main/tests/zz_demo_*.rs")) + glob.glob(os.path.join(wt, "generator/tests/zz_demo_*.rs"))
     assert os.path.exists(patch), "no mutant.diff"
@@ -39,7 +39,7 @@ def confirm(wt, sid, prop):
     if rc != 0:
         rc2, out2 = sh("git apply mutant.diff", wt)
         assert rc2 == 0, "mutant.diff neither applied nor applicable:\n" + out + out2
-    cmd = "cargo test -p %s --test %s --offline" % (crate, test)
+    cmd = "cargo test %s -p %s --test %s --offline" % (demo_flags, crate, test)
     rc, out = sh(cmd, wt)
     log["demo_with_change"] = {"cmd": cmd, "exit": rc, "tail": out[-600:]}
     assert rc != 0, "demonstration passes WITH the change"
@@ -107,7 +107,7 @@ def run(sid, checks, tier="quick"):
 
 if __name__ == "__main__":
     if sys.argv[1] == "confirm":
-        confirm(sys.argv[2], sys.argv[3], sys.argv[4])
+        confirm(sys.argv[2], sys.argv[3], sys.argv[4], " ".join(sys.argv[5:]))
     elif sys.argv[1] == "run":
         tier = "quick"
         args = sys.argv[3:]
